@@ -44,6 +44,9 @@ UNDECODABLE = 'MACH_vm_page_release'
 FRESH = [0x0bad0000, 0x0bad0004]
 
 
+LONG_PATH = '/a/path/of/more/than/24/bytes'
+
+
 def ops(tid):
     """operation -> list of (name, qualifier, args or data)"""
     return [
@@ -58,6 +61,9 @@ def ops(tid):
         # a sample window with records the tool does not decode before its header, between header and data and after the data
         [('PERF_Event', 1, (8, 1, 0, 0)), ('MACH_vm_page_release', 0, (1, 2, 3, 4)), ('PERF_STK_UHdr', 0, (1, 3, 0, 0)), ('MACH_vm_page_release', 0, (5, 6, 7, 8)),
          ('PERF_STK_UData', 0, (0x30, 0x40, 0x50, 0)), ('MACH_vm_page_release', 0, (9, 9, 9, 9)), ('PERF_Event', 2, (8, 0, 0, 0))],
+        # a call whose lookup record is directly followed by a record the tool does not decode, carrying bytes that look like a path
+        [('BSC_open', 1, (1, 0x601, 0o644, 0)), ('VFS_LOOKUP', 1, B.lookup_chunks(5, LONG_PATH)[0][0]), ('MACH_vm_page_release', 0, b'/PROBE/payload'.ljust(32, b'\0')),
+         ('VFS_LOOKUP', 2, B.lookup_chunks(5, LONG_PATH)[1][0]), ('MACH_vm_page_release', 0, b'/PROBE/after'.ljust(32, b'\0')), ('BSC_open', 2, (0, 3, 0, 0))],
     ]
 
 
@@ -264,6 +270,25 @@ def judge_callstacks_table(label, fn):
     return None
 
 
+def judge_paths_table(label, fn):
+    """absolute expectation for looked-up paths under a supplied table: while the table still names the call and the lookup records,
+    open() shows exactly the path of ITS lookup records - whatever other ids the table lacks or renames."""
+    T = default_table()
+    ids = {n: E.n2i(n) for n in WORK}
+    T2 = fn(T)
+    if not all(T2.get(ids[n]) == n for n in ('BSC_open', 'VFS_LOOKUP')):
+        return None
+    recs, meta = stream_records([(7, 1), (0, 2), (7, 2)], ids)
+    blob = B.v2([(1, 10, 'A'), (2, 20, 'B')], 0, recs)
+    got, err = observe_traces(blob, T2)
+    if err:
+        return ('decoding-under-supplied-table-raised', {'edit': label, 'error': err})
+    opens = [g[1] for g in got if g[0] == 'BscOpen']
+    if len(opens) != 3 or not all(o.startswith(f'open("{want}",') for o, want in zip(opens, (LONG_PATH, '/x', LONG_PATH))):
+        return ('path-not-from-the-lookup-records-under-supplied-table', {'edit': label, 'got': opens})
+    return None
+
+
 def judge_file_loader():
     """from_trace_codes_file: what is loaded is what the file holds NOW - also when the file was replaced without its
     modification time changing, and for several files in turn."""
@@ -403,7 +428,7 @@ class C19(Check):
             for label, fn in edits():
                 if not any(n in label for n in ('PERF_', 'bundled', 'empty', 'only-one', 'BSC_open', UNDECODABLE)):
                     continue
-                bad = judge_callstacks_table(label, fn)
+                bad = judge_callstacks_table(label, fn) or judge_paths_table(label, fn)
                 acc.case(nontrivial=True, transitions=4)
                 if bad:
                     acc.violation(bad[0], {'kind': 'callstacks', 'edit': label}, bad[1])
@@ -432,7 +457,7 @@ class C19(Check):
             bad = judge_file_loader()
             return [bad] if bad else []
         if case['kind'] == 'callstacks':
-            bad = judge_callstacks_table(case['edit'], dict(edits())[case['edit']])
+            bad = judge_callstacks_table(case['edit'], dict(edits())[case['edit']]) or judge_paths_table(case['edit'], dict(edits())[case['edit']])
             return [bad] if bad else []
         fn = dict(edits())[case['edit']]
         return judge_supplied([tuple(x) for x in case['ops']], case['edit'], fn)
